@@ -193,3 +193,52 @@ func TestSelfCloseReplay(t *testing.T) {
 		}
 	}
 }
+
+// Part "born-closed": the package's default actor (fpgo.Actor / GetDefault()) reports IsClosed() == true
+// without ever having been open. It is a closed actor like any other: "calls that begin after the close ...
+// are silently dropped where the API has no error result", "without deadlock" - Send returns, an Ask towards
+// it ends with its time-out.
+func TestBornClosed(t *testing.T) {
+	if vlib.Replaying() {
+		t.Skip()
+	}
+	vlib.S().Eval("born-closed")
+	a := fpgo.Actor.GetDefault()
+	if a == nil || !a.IsClosed() {
+		vlib.S().Note("born-closed: the default actor is not reported closed; nothing to check")
+		return
+	}
+	vlib.S().NonTrivial("born-closed", "default actor: Send, AskOnceWithTimeout, AskChannel")
+	for _, step := range []struct {
+		name string
+		fn   func() string
+	}{
+		{"Send", func() string { a.Send(1); return "" }},
+		{"AskOnceWithTimeout", func() string {
+			v, err := fpgo.AskNewGenerics[interface{}, int](1).AskOnceWithTimeout(a, 20*time.Millisecond)
+			if err != fpgo.ErrActorAskTimeout {
+				return fmt.Sprintf("returned (%d, %v), want ErrActorAskTimeout", v, err)
+			}
+			return ""
+		}},
+		{"AskChannel", func() string { fpgo.AskNewGenerics[interface{}, int](2).AskChannel(a); return "" }},
+	} {
+		done := make(chan string, 1)
+		go func() {
+			p, st := vlib.Try(func() { done <- step.fn() })
+			if p != nil {
+				done <- fmt.Sprintf("panicked: %v\n%s", p, st)
+			}
+		}()
+		select {
+		case m := <-done:
+			if m != "" {
+				vlib.Fail(t, "C15/born-closed", "%s towards the default (closed) actor %s", step.name, m)
+				return
+			}
+		case <-time.After(vlib.StallBudget()):
+			vlib.Fail(t, "C15/born-closed/deadlock", "%s towards the default actor (IsClosed() == true) does not return:\n%s", step.name, vlib.AllStacks())
+			return
+		}
+	}
+}
